@@ -19,7 +19,9 @@ CACHING = {"hash", "diff", "subs", "expand", "add", "sub", "mul", "div", "pow", 
 
 # ------------------------------------------------------------------ pool nodes
 _small = st.integers(-9, 9)
-_big = st.one_of(st.integers(-2 ** 70, 2 ** 70), st.sampled_from([2 ** 64, 2 ** 64 + 1, -(2 ** 63), 10 ** 30]))
+# multi-limb integers only far above the machine-word range: a mid-size integer that ends up as an exponent
+# or as a sieve limit would only test the machine (3**(2**40))
+_big = st.sampled_from([2 ** 64 + 1, -(2 ** 64) - 3, 2 ** 70 + 5, 10 ** 30, -(10 ** 30) + 7, 3 ** 50, 2 ** 127 - 1])
 
 
 def _leaf(sieve):
@@ -32,39 +34,64 @@ def _leaf(sieve):
 
 
 def node(sieve=True, max_leaves=6):
-    f1 = ["sin", "cos", "exp", "log", "sqrt", "abs", "tan", "gamma", "erf", "atan"]
+    f1 = ["sin", "cos", "exp", "log", "sqrt", "abs", "tan", "erf", "atan", "sinh"]
 
     def ext(ch):
         opts = [st.tuples(st.sampled_from(["add", "mul", "sub", "div"]), ch, ch).map(lambda t: {"f": t[0], "x": [t[1], t[2]]}),
                 st.tuples(st.sampled_from(["add", "mul"]), ch, ch).map(lambda t: {"f": t[0], "x": [t[1], t[2]]}),
                 st.tuples(ch, st.integers(-3, 5)).map(lambda t: {"f": "pow", "x": [t[0], {"i": t[1]}]}),
-                st.tuples(ch, ch).map(lambda t: {"f": "pow", "x": [t[0], t[1]]}),
+                st.tuples(ch, st.one_of(st.sampled_from(SYMS).map(lambda s: {"s": s}),
+                                        st.tuples(st.integers(-3, 3), st.integers(2, 5)).map(lambda t: {"q": [t[0], t[1]]})))
+                .map(lambda t: {"f": "pow", "x": [t[0], t[1]]}),
                 st.tuples(st.sampled_from(f1), ch).map(lambda t: {"f": t[0], "x": [t[1]]}),
                 st.tuples(st.sampled_from(["f", "g"]), ch, ch).map(lambda t: {"fs": t[0], "x": [t[1], t[2]]})]
         if sieve:
             # "substitute into a shared expression" reaches the process-global prime sieve through these
-            opts.append(st.tuples(st.sampled_from(["primepi", "primorial"]), ch).map(lambda t: {"f": t[0], "x": [t[1]]}))
+            # (argument: a bare symbol, so that the sieve limit is whatever a thread substitutes, i.e. small)
+            opts.append(st.tuples(st.sampled_from(["primepi", "primorial"]), st.sampled_from(SYMS))
+                        .map(lambda t: {"f": t[0], "x": [{"s": t[1]}]}))
         return st.one_of(opts)
     return st.recursive(_leaf(sieve), ext, max_leaves=max_leaves)
 
 
-def render_node(n, k):
-    """node -> driver expression; k = number of earlier pool elements"""
+DEG_MAX = 16
+
+
+def render_node(n, k, pdeg):
+    """node -> (driver expression, degree estimate); k = number of earlier pool elements, pdeg = their
+    degree estimates.  Products / powers whose estimated degree exceeds DEG_MAX are replaced by their first
+    operand, so that expand() of anything derived from the pool stays small (bounded by construction)."""
     if "s" in n:
-        return ["symbol", n["s"]]
+        return ["symbol", n["s"]], 1
     if "i" in n:
-        return ["integer", n["i"]]
+        return ["integer", n["i"]], 0
     if "q" in n:
-        return ["rational", n["q"][0], n["q"][1]]
+        return ["rational", n["q"][0], n["q"][1]], 0
     if "c" in n:
-        return ["constant", n["c"]]
+        return ["constant", n["c"]], 0
     if "ref" in n:
         if k == 0:
-            return ["symbol", "x"]
-        return ["$", n["ref"] % k]
+            return ["symbol", "x"], 1
+        return ["$", n["ref"] % k], pdeg[n["ref"] % k]
+    kids = [render_node(c, k, pdeg) for c in n["x"]]
     if "fs" in n:
-        return ["function_symbol", n["fs"], ["list"] + [render_node(c, k) for c in n["x"]]]
-    return [n["f"]] + [render_node(c, k) for c in n["x"]]
+        return ["function_symbol", n["fs"], ["list"] + [e for e, _ in kids]], max(1, max(d for _, d in kids))
+    f = n["f"]
+    if f in ("mul", "div"):
+        d = kids[0][1] + kids[1][1]
+        if d > DEG_MAX:
+            return kids[0]
+        return [f, kids[0][0], kids[1][0]], d
+    if f == "pow":
+        ex = n["x"][1]
+        m = abs(ex["i"]) if "i" in ex else 2
+        d = kids[0][1] * max(m, 1)
+        if d > DEG_MAX or kids[1][1] > 1:
+            return kids[0]
+        return [f, kids[0][0], kids[1][0]], max(d, 1)
+    if f in ("add", "sub"):
+        return [f, kids[0][0], kids[1][0]], max(kids[0][1], kids[1][1])
+    return [f] + [e for e, _ in kids], max(1, max(d for _, d in kids))
 
 
 def node_heads(n, acc):
@@ -113,23 +140,46 @@ def _val(v, n_regs):
     return ["$", v["reg"] % n_regs]
 
 
-def render_instr(ins, n_regs):
+def render_instr(ins, n_regs, deg, sieve):
+    """-> (statement, degree estimate of its result); deg = degree estimates of the visible registers"""
     op = ins["op"]
     if op == "yield":
-        return ["yield"]
+        return ["yield"], 0
     if op == "spin":
-        return ["spin", ins["n"]]
-    a = ["$", ins["a"] % n_regs]
-    if op in ("hash", "str", "expand"):
-        return [op, a]
-    if op in ("cmp", "eq", "add", "mul", "sub", "div"):
-        return [op, a, ["$", ins["b"] % n_regs]]
+        return ["spin", ins["n"]], 0
+    ia = ins["a"] % n_regs
+    a = ["$", ia]
+    if op in ("hash", "str"):
+        return [op, a], 0
+    if op == "expand":
+        return [op, a], deg[ia]
+    if op in ("cmp", "eq"):
+        return [op, a, ["$", ins["b"] % n_regs]], 0
+    if op in ("add", "sub"):
+        ib = ins["b"] % n_regs
+        return [op, a, ["$", ib]], max(deg[ia], deg[ib])
+    if op in ("mul", "div"):
+        ib = ins["b"] % n_regs
+        if deg[ia] + deg[ib] > DEG_MAX:
+            return ["add", a, ["$", ib]], max(deg[ia], deg[ib])
+        return [op, a, ["$", ib]], deg[ia] + deg[ib]
     if op == "diff":
-        return ["diff", a, ["symbol", ins["s"]]]
+        return ["diff", a, ["symbol", ins["s"]]], deg[ia]
     if op == "subs":
-        return ["subs", a, ["list", ["list", ["symbol", ins["s"]], _val(ins["v"], n_regs)]]]
+        v = ins["v"]
+        if "reg" in v:
+            iv = v["reg"] % n_regs
+            if sieve or deg[ia] * max(deg[iv], 1) > DEG_MAX:
+                # with PrimePi / Primorial nodes in the pool a substituted value becomes a sieve limit: small ints only
+                v = {"i": v["reg"] % 50 + 2}
+                return ["subs", a, ["list", ["list", ["symbol", ins["s"]], _val(v, n_regs)]]], deg[ia]
+            return ["subs", a, ["list", ["list", ["symbol", ins["s"]], ["$", iv]]]], deg[ia] * max(deg[iv], 1)
+        return ["subs", a, ["list", ["list", ["symbol", ins["s"]], _val(v, n_regs)]]], deg[ia]
     if op == "pow":
-        return ["pow", a, ["integer", ins["e"]]]
+        e = ins["e"]
+        if deg[ia] * abs(e) > DEG_MAX:
+            e = 1
+        return ["pow", a, ["integer", e]], deg[ia] * max(abs(e), 1)
     raise ValueError(op)
 
 
@@ -137,24 +187,28 @@ def compile_case(case):
     """-> (request text, P, touched) ; touched[t] = list of (pool index, op) the thread reads directly"""
     pool = case["pool"]
     P = len(pool)
-    ptxt = " ".join(sx(render_node(n, k)) for k, n in enumerate(pool))
-    parts = ["(pool " + ptxt + ")"]
+    sieve = uses_sieve(case)
+    pdeg, ptx = [], []
+    for k, n in enumerate(pool):
+        e, d = render_node(n, k, pdeg)
+        ptx.append(sx(e))
+        pdeg.append(d)
+    parts = ["(pool " + " ".join(ptx) + ")"]
     touched = []
     for lst in case["threads"]:
         stm = []
         tt = []
+        deg = list(pdeg)
         for j, ins in enumerate(lst):
             n_regs = P + j
-            stm.append(sx(render_instr(ins, n_regs)))
+            e, d = render_instr(ins, n_regs, deg, sieve)
+            stm.append(sx(e))
+            deg.append(d)
             for key in ("a", "b"):
                 if key in ins and ins["op"] not in ("yield", "spin"):
                     r = ins[key] % n_regs
                     if r < P:
                         tt.append((r, ins["op"]))
-            if ins["op"] == "subs" and "reg" in ins["v"]:
-                r = ins["v"]["reg"] % n_regs
-                if r < P:
-                    tt.append((r, "subs"))
         parts.append("(thread " + " ".join(stm) + ")")
         touched.append(tt)
     return " ".join(parts), P, touched
